@@ -199,7 +199,7 @@ class Project:
         nd = len([d for d in s["dims"] if d])
         if s["kind"] != "tag":
             return s.get("typeword", 0x1000 if s["kind"] == "system" else 0x68)
-        w = (t["code"] if t["k"] == "atomic" else 0x8000 | t["tid"]) | (nd << 13)
+        w = (t["code"] | s.get("bitpos", 0) << 8 if t["k"] == "atomic" else 0x8000 | t["tid"]) | (nd << 13)
         if s.get("sysflag"):
             w |= 0x1000
         return w
